@@ -225,9 +225,19 @@ func registerExternals(e *Engine) {
 		return nil
 	}
 
-	// ---- sync.Pool: Get = New(), Put = no-op ----
+	// ---- sync.Pool: Get = New(), Put = no-op; with spec "pool_reuse" a Put object
+	// may (or may not) come back from a later Get: both are explored ----
+	type poolState struct{ items []Value }
 	x["(*sync.Pool).Get"] = func(p *Path, th *Thread, fr *frame, a []Value) Value {
 		ptr := a[0].(*Value)
+		if p.eng.poolReuse {
+			ps := ghostGet(p, "pool", ptr, func() *poolState { return &poolState{} })
+			if n := len(ps.items); n > 0 && p.choose(2) == 1 {
+				it := ps.items[n-1]
+				ps.items = ps.items[:n-1]
+				return it
+			}
+		}
 		st := (*ptr).(Struct)
 		pt := deref(fr.fn.Params[0].Type()).Underlying().(*types.Struct)
 		for i := 0; i < pt.NumFields(); i++ {
@@ -240,7 +250,13 @@ func registerExternals(e *Engine) {
 		}
 		return Iface{}
 	}
-	x["(*sync.Pool).Put"] = func(p *Path, th *Thread, fr *frame, a []Value) Value { return nil }
+	x["(*sync.Pool).Put"] = func(p *Path, th *Thread, fr *frame, a []Value) Value {
+		if p.eng.poolReuse {
+			ps := ghostGet(p, "pool", a[0].(*Value), func() *poolState { return &poolState{} })
+			ps.items = append(ps.items, a[1])
+		}
+		return nil
+	}
 
 	// ---- sync/atomic ----
 	for _, ty := range []string{"Int32", "Int64", "Uint32", "Uint64", "Uintptr", "Pointer"} {
